@@ -602,7 +602,14 @@ def main():
     STYLE = "Pen: !record\n  fields:\n    color: Core.Color\n    width: float\n    at: Core.Point?\n"
     TOP = ("Canvas: !record\n  fields:\n    shapes: Geometry.Shapes\n    first: Geometry.Shape?\n    tagged: Geometry.Tagged<int>\n%s"
            "Draw: !protocol\n  sequence:\n    canvas: Canvas\n    items: !stream\n      items: Geometry.Shape\n    tags: Geometry.Tagged<string>*\n")
+    # local types that are used only as type arguments of imported generic types, and are declared after their users
+    LATE = ("Holder: !record\n  fields:\n    boxed: Core.Box<Item>\n    maybe: Core.Maybe<Kind>\n    tagged: Geometry.Tagged<Piece>\n    both: Core.Box<Core.Maybe<Deep>>\n"
+            "HeldAlias: Core.Box<Late>\nHeldVec: Geometry.Tagged<Later>*\n"
+            "Draw: !protocol\n  sequence:\n    holder: Holder\n    held: HeldAlias\n    more: !stream\n      items: HeldVec\n    direct: Core.Box<Last>\n"
+            "Item: !record\n  fields:\n    i: int\nKind: !enum\n  values: [k1, k2]\nPiece: !record\n  fields:\n    p: Item\nDeep: !record\n  fields:\n    d: float\n"
+            "Late: !record\n  fields:\n    l: Item\nLater: [int, string]\nLast: !record\n  fields:\n    z: Kind\n")
     layouts = {
+        "late_local_type_arguments": {"core": ("Core", [], CORE), "geometry": ("Geometry", ["../core"], GEO), "model": ("Drawing", ["../geometry", "../core"], LATE)},
         "chain": {"core": ("Core", [], CORE), "geometry": ("Geometry", ["../core"], GEO), "model": ("Drawing", ["../geometry"], TOP % "")},
         "diamond": {"core": ("Core", [], CORE), "geometry": ("Geometry", ["../core"], GEO), "style": ("Style", ["../core"], STYLE),
                     "model": ("Drawing", ["../geometry", "../style"], TOP % "    pen: Style.Pen\n")},
